@@ -268,7 +268,7 @@ func ruleC03Gate(e *Env) {
 			subject = "slice[1:](input)"
 		}
 		parseErr := func(k int) string {
-			return fmt.Sprintf("nil? strconv.ParseUint#1((*regexp.Regexp).FindSubmatch(*sem.pattern,%s)[%d],10,64)", subject, k)
+			return fmt.Sprintf("nil? strconv.ParseUint#1((*regexp.Regexp).FindSubmatch(*sem.%s,%s)[%d],10,64)", e.vname("sem", "pattern"), subject, k)
 		}
 		want := "?"
 		switch {
@@ -314,7 +314,7 @@ func ruleC03Gate(e *Env) {
 			continue
 		}
 		for i, f := range sv.Fields {
-			cap := fmt.Sprintf("(*regexp.Regexp).FindSubmatch(*sem.pattern,%s)[%d]", subject, i+1)
+			cap := fmt.Sprintf("(*regexp.Regexp).FindSubmatch(*sem.%s,%s)[%d]", e.vname("sem", "pattern"), subject, i+1)
 			wantF := cap
 			if i < 3 {
 				wantF = "strconv.ParseUint#0(" + cap + ",10,64)"
@@ -491,7 +491,8 @@ func ruleC03ValidTable(e *Env) {
 		e.S.Unk(rule, site, "table", err.Error(), e.Pos(fn))
 		return
 	}
-	mPre, mBuild := "(*regexp.Regexp).MatchString(*sem.preRelease,v.PreRelease)", "(*regexp.Regexp).MatchString(*sem.build,v.Build)"
+	mPre := "(*regexp.Regexp).MatchString(*sem." + e.vname("sem", "preRelease") + ",v.PreRelease)"
+	mBuild := "(*regexp.Regexp).MatchString(*sem." + e.vname("sem", "build") + ",v.Build)"
 	for _, lf := range leaves {
 		construct := lf.String()
 		if lf.Err != nil {
